@@ -184,7 +184,21 @@ def gen_model(r):
         obj['add'] = rint(r, -2, 2, nd).tolist(); obj['addz'] = rint(r, -1, 1, nz).tolist()
         obj['scale'] = float(r.choice([1.0, 2.0, 0.5]))
     d['obj'] = obj
+    d['late'] = None
+    if r.random() < 0.12:
+        # a random variable declared after minmax()/maxmin() fixed the default set: unrestricted in that set, so the
+        # row  (R x + r0).z + a.x + a0 + (g.x)*u <= 0  means the robust row without u together with g.x == 0
+        d['late'] = {'g': rint(r, -1, 1, nd).tolist(), 'R': rint(r, -2, 2, (nz, nd)).tolist(), 'r0': rint(r, -2, 2, nz).tolist(),
+                     'a': rint(r, -2, 2, nd).tolist(), 'a0': float(rint(r, -8, -1))}
     return d
+
+
+def late_con(d):
+    """the robust part of the late row, in the format of d['cons'] entries"""
+    L = d.get('late')
+    if not L:
+        return []
+    return [{'rows': 1, 'R': [L['R']], 'r0': [L['r0']], 'a': [L['a']], 'a0': [L['a0']], 'coef': 0.0, 'sense': 'le', 'own': None}]
 
 
 def build(d, spell=None):
@@ -237,6 +251,10 @@ def build(d, spell=None):
         m.maxmin(objexpr, rs_set(z, d['S0']))
     else:
         m.minmax(objexpr, rs_set(z, d['S0']))
+    L = d.get('late')
+    if L:
+        u = m.rvar()
+        m.st((np.array(L['R']) @ x + np.array(L['r0'])) @ z + np.array(L['a']) @ x + L['a0'] + (np.array(L['g']) @ x) * u <= 0)
     return m, {'x': x, 'z': z, 'y': y}
 
 
@@ -262,7 +280,11 @@ def check_safety(d, m, h, tol=1e-5):
             out.append({'what': 'ldr depends on undeclared component', 'yz': yz.tolist()})
     else:
         y0 = 0.0; yz = np.zeros(nz)
-    for ci, con in enumerate(d['cons']):
+    if d.get('late'):
+        gx = float(np.array(d['late']['g']) @ xs)
+        if abs(gx) > 1e-6:
+            out.append({'what': 'coefficient of an unrestricted (late) random variable is not zero', 'coefficient': gx, 'x': xs.tolist()})
+    for ci, con in enumerate(d['cons'] + late_con(d)):
         S = con['own'] if con['own'] is not None else d['S0']
         for k in range(con['rows']):
             R = np.array(con['R'][k]); r0 = np.array(con['r0'][k]); a = np.array(con['a'][k]); a0 = con['a0'][k]
